@@ -261,6 +261,18 @@ def tables() -> dict:
                 if isinstance(sub, ast.Assign) and any(isinstance(x, ast.Attribute) and x.attr == "_variants_attr" for x in sub.targets):
                     per_format = "format_name" in ast.unparse(sub.value)
     t["subtypeRegistryPerFormat"] = per_format
+    # order of the two writes of the rescan loop (DiscriminatedUnionUnpackerBuilder._add_body)
+    after_build = False
+    for node in ast.walk(ast.parse(_src("mashumaro/core/meta/types/unpack.py"))):
+        if isinstance(node, ast.FunctionDef) and node.name == "_add_body":
+            calls = [(sub.lineno, sub.func.attr) for sub in ast.walk(node) if isinstance(sub, ast.Call) and isinstance(sub.func, ast.Attribute)
+                     and sub.func.attr in ("_add_register_variant_tags", "_add_build_variant_unpacker")]
+            regs = [ln for ln, a in calls if a == "_add_register_variant_tags"]
+            builds = [ln for ln, a in calls if a == "_add_build_variant_unpacker"]
+            if regs and builds:
+                after_build = min(builds) < min(regs)
+            break
+    t["variantRegisteredAfterBuild"] = after_build
     t["mroWalkSample"] = walk if walk is not None else []
     t["mroFarthestFirst"] = bool(walk) and walk == sorted(walk, reverse=True)
     t["cacheGuardOwnDict"] = len(guards) == 2 and all(g[1] == "if not '{}' in cls.__dict__:" for g in guards)
@@ -318,6 +330,8 @@ def render(t: dict) -> str:
     L.append("def mroWalkSample : List Nat := [" + ", ".join(str(x) for x in t["mroWalkSample"]) + "]")
     L.append("/-- `SubtypeUnpackerBuilder._get_variants_attr` builds the registry attribute name from the format name -/")
     L.append("def subtypeRegistryPerFormat : Bool := " + ("true" if t["subtypeRegistryPerFormat"] else "false"))
+    L.append("/-- in the rescan loop of a discriminated union the variant's unpacker is built BEFORE its tag is registered -/")
+    L.append("def variantRegisteredAfterBuild : Bool := " + ("true" if t["variantRegisteredAfterBuild"] else "false"))
     L.append("")
     L.append("end Mashu.Generated")
     return "\n".join(L) + "\n"
